@@ -31,8 +31,16 @@ const Rule = "cases = (a pool of tables: implementation, hash function, HashOpts
 	"iterator values: sequences returned by All() kept, two traversals of one table advanced alternately, nested loops over one table and over two, loops broken off half-way, a " +
 	"sequence run twice, tables read and OTHER tables changed meanwhile, sequences and not-yet-started traversals obtained BEFORE their table grew / shrank / was emptied and run " +
 	"AFTERWARDS (D29: they must list the table as it is when they are run; only a traversal that is half-way when its own table changes is outside the property and ends as `invalid`); " +
+	"second round - type instantiation: the integer keys / values of a case represented by []int (not comparable, slices.Equal), struct{int; string}, string and *int keys - hashed by the library's " +
+	"own hash.HashFuncForIntSlice / HashFuncForInt xor HashFuncForString / HashFuncForString, one closure per table, or by a user function - and by []int values with an eqVal, everything mapped back " +
+	"to the integers on the way out (mixed histories, traversals, grow / shrink walks, a second table with another hash function and value equality); EVERY pair of load-factor bounds of a 6 x 5 grid " +
+	"inside the defaults (20 pairs, those with min > max/2 included) x {fnv, mod 3, constant} x a grow-then-shrink walk of 30-200 entries with look-ups after every step of the shrink; every entry count " +
+	"from 0 to 200 and back one key at a time with all keys looked up after every step; every capacity 0..200 as InitialCap; walks through the capacity graph m -> nextPrime(2m) | nextPrime(m/2) of the " +
+	"quadratic / double tables whose last resize asks for a capacity just below the square of a prime (11^2 .. 101^2) with no prime in between, every key colliding, then the table filled to its load limit " +
+	"(quick: the walks below 1200 slots from the capacities 31, 61, 131, 263; when run.Huge(): one walk per square, the cheapest over the starts 31 37 61 131 263 839 3343, and every walk from 31 - the " +
+	"19-resize rhythm to 3481 = 59^2 among them -, ORACLE ONLY above 2000 slots) and, when run.Huge(), a table of 10^6 entries per implementation (ORACLE ONLY); " +
 	"every mutating op (put, delete, deleteall, bulk putn / deln) is compared with the Model on m, n, u, p and a " +
-	"digest of all occupied slots; every case is also run on the Model (no oracle-only cases); non-trivial = the history had a probe/chain walk of length >= 3 or at least one resize; " +
+	"digest of all occupied slots; every case of the quick tier is also run on the Model (oracle-only cases exist under run.Huge() only and are counted as oracle_only_cases); non-trivial = the history had a probe/chain walk of length >= 3 or at least one resize; " +
 	"distinct = distinct (header, op list)"
 
 // Mode selects what Exec checks beyond the map oracle.
